@@ -33,16 +33,22 @@ structure Flags where
   excl : Bool
   retire : Bool
   answers : Bool
+  reloadPanics : Bool := true
 
 def Flags.ofCode : Flags :=
   { fwd := Consts.hubForwardsTimedOut, excl := Consts.hubStopFailureExclusive,
-    retire := Consts.hubRetiresAnsweredIds, answers := Consts.hubAnswersUnsupportedVerbs }
+    retire := Consts.hubRetiresAnsweredIds, answers := Consts.hubAnswersUnsupportedVerbs,
+    reloadPanics := Consts.hubReloadBadPathPanics }
 
 def Flags.parse (s : String) : Option Flags :=
   match s.toList with
   | [a, b, c, d] =>
     if [a, b, c, d].all (fun x => x = '0' || x = '1') then
       some { fwd := a = '1', excl := b = '1', retire := c = '1', answers := d = '1' }
+    else none
+  | [a, b, c, d, e] =>
+    if [a, b, c, d, e].all (fun x => x = '0' || x = '1') then
+      some { fwd := a = '1', excl := b = '1', retire := c = '1', answers := d = '1', reloadPanics := e = '1' }
     else none
   | _ => none
 
@@ -191,6 +197,9 @@ def stepLine (fl : Flags) (d : DState) (line : String) : DState × List String :
       if d.held then (d, ["bad-op"]) else
       if !d.allowed then
         let h' := step (step d.hub (.request c .workerBad)) .tick
+        ({ d with hub := h' }, [delta d.hub h'])
+      else if !fl.reloadPanics then
+        let h' := step (step d.hub (.request c .reloadRefused)) .tick
         ({ d with hub := h' }, [delta d.hub h'])
       else if d.hub.run = .exited then (d, ["-"]) else
       let known := if d.hub.known.contains c then d.hub.known else d.hub.known ++ [c]
